@@ -4,6 +4,7 @@ import BddVerif.Lemmas.AlgoEqApply
 import BddVerif.Lemmas.AlgoEqTernary
 import BddVerif.Lemmas.AlgoEq2RelPanic
 import BddVerif.Lemmas.AlgoEq3ExprIte
+import BddVerif.Lemmas.TraitTable
 #print axioms B.Props.C01.apply_pointwise
 #print axioms B.Props.C01.eager_lazy_same
 #print axioms B.Props.C01.apply_canonical_form
@@ -44,3 +45,4 @@ import BddVerif.Lemmas.AlgoEq3ExprIte
 #print axioms B.AlgoEq3Expr.Bdd_if_then_else_eq_canon
 #print axioms B.AlgoEq3Expr.Bdd_if_then_else_eq_model_driver
 #print axioms B.AlgoEq3Expr.Bdd_if_then_else_panics_mismatch
+#print axioms B.TraitTable.key_types_derive_eq_hash
